@@ -117,7 +117,8 @@ def aux_state(h, res):
 
 
 # ------------------------------------------------------------------------------- size thresholds named by the tree itself
-SIZE_CAP = 130
+SIZE_CAP = 260       # sizes explored by the 'deep' scale shape (cost linear in the size)
+HUB_CAP = 130        # ... by the shapes whose cost grows faster
 
 
 def _fold(node):
